@@ -23,7 +23,7 @@ VERIF = os.path.dirname(HERE)
 OUT = os.environ.get("VERIF_OUT_DIR") or os.path.join(VERIF, "out")
 REPLAYS = os.path.join(OUT, "replays")
 EVIDENCE = os.environ.get("VERIF_EVIDENCE_DIR") or os.path.join(VERIF, "evidence")
-KNOWN_FILE = os.path.join(VERIF, "KNOWN_FINDINGS.txt")
+KNOWN_FILE = os.environ.get("VERIF_KNOWN_FILE") or os.path.join(VERIF, "KNOWN_FINDINGS.txt")
 REGRESSIONS = os.path.join(VERIF, "regressions")
 PYTHON = sys.executable
 
@@ -337,6 +337,57 @@ def ddmin(world_name, prop, header, ops, vclass, run_seed, budget_s=30.0):
             ops = cand
         else:
             i += 1
+    return ops
+
+
+def _simpler(v):
+    """Candidate simplifications of a JSON value, simplest first."""
+    out = []
+    if isinstance(v, dict):
+        out.append({})
+        ks = list(v)
+        if len(ks) > 1:
+            out.append({k: v[k] for k in ks[:len(ks) // 2]})
+            out.append({k: v[k] for k in ks[len(ks) // 2:]})
+        for k in ks[:6]:
+            for c in _simpler(v[k])[:2]:
+                d = dict(v)
+                d[k] = c
+                out.append(d)
+    elif isinstance(v, list):
+        out.append([])
+        if len(v) > 1:
+            out.append(v[:len(v) // 2])
+            out.append(v[len(v) // 2:])
+    elif isinstance(v, str) and len(v) > 1:
+        out.append("")
+        out.append(v[:1])
+    elif isinstance(v, (int, float)) and not isinstance(v, bool) and v not in (0, 1):
+        out.append(0)
+        out.append(1)
+    return out
+
+
+def simplify_ops(world_name, prop, header, ops, vclass, run_seed, budget_s=15.0, keys=("payload", "value", "doc", "rec")):
+    """Per-operation simplification after ddmin: smaller payloads / documents while the same violation persists."""
+    t0 = time.time()
+    ops = [dict(o) for o in ops]
+    changed = True
+    while changed and time.time() - t0 < budget_s:
+        changed = False
+        for i, o in enumerate(ops):
+            for k in keys:
+                if k not in o:
+                    continue
+                for cand in _simpler(o[k]):
+                    if time.time() - t0 > budget_s:
+                        return ops
+                    trial = [dict(x) for x in ops]
+                    trial[i][k] = cand
+                    if _reproduces(world_name, prop, header, trial, vclass, run_seed):
+                        ops = trial
+                        changed = True
+                        break
     return ops
 
 
